@@ -9,7 +9,7 @@ from bsv.props._x1 import spec
 ID = "C03"
 LEVEL = "model_checking"
 RULE = (
-    "X1: count, scan, rel_scan, grid_scan (snaked 2x2), list_scan, adaptive_scan, tune_centroid, nested runs with run keys, two "
+    "X1: count, scan, rel_scan, grid_scan (snaked 2x2), list_scan, adaptive_scan, tune_centroid, nested runs with run keys, two runs under run keys with interleaved bodies (scenario keys), two "
     "consecutive runs, monitor, generated checkpointed plans x {pause->resume, deferred pause->resume, suspend->release (with/without "
     "pre/post plans)} at every loop position; quick: one interruption, thorough: two (repeated interruptions) on the small scenarios "
     "and async device flavours. Differential oracle against the uninterrupted run of the same scenario: per run index and stream the "
@@ -26,10 +26,12 @@ MENU = [("pause",), ("dpause",), ("suspend", "none"), ("suspend", "both")]
 _q = ["count2", "scan2", "relscan2", "grid22s", "listscan", "nested", "tworuns", "adaptive", "tunec"]
 SPECS = {
     "quick": [spec(k, MENU, bound=1) for k in _q] + [spec("linear", MENU, bound=1, seq=s) for s in ("or-cp-crs-cp-crs-cr", "or-cp-crs-cr-or-cp-crs-cr", "or-cp-set-crs-cp-set-crs-cr")]
-    + [spec("tiny", MENU, bound=2)],  # every pair of interruptions on the smallest run
+    + [spec("tiny", MENU, bound=2)]  # every pair of interruptions on the smallest run
+    + [spec("keys", [("pause",)], bound=1, il=i) for i in range(70)],  # two runs open at once, every interleaving of their bodies
     "thorough": [spec(k, MENU, bound=1, a=a) for k in _q + ["cleanup", "baseline", "fly1", "twomotors"] for a in (0, 1)]
     + [spec(k, MENU, bound=2) for k in ("count2", "tworuns", "tiny", "nested")]
     + [spec("scan2", [("pause",), ("suspend", "none")], bound=2)]
+    + [spec("keys", MENU, bound=1, il=i) for i in (0, 7, 19, 23, 34, 35, 46, 52, 61, 69)]
     + [spec("linear", MENU, bound=2, seq=s) for s in ("or-cp-crs-cp-crs-cr", "or-cp-crs-cr-or-cp-crs-cr")],
 }
 
